@@ -89,7 +89,7 @@ def drive(ctx, corpus, only=None):
                 ctx.evaluations += 1
                 meta[(tid, 1)] = {"recipe": {"tid": tid}, "exc": repr(obs.exc) if obs.exc else None}
                 if not obs.ok:
-                    ctx.count("calls_rejected_or_failed")
+                    sc.note_failure(ctx, PID, "date", "date", tid, obs, meta[(tid, 1)])
                     continue
                 P = obs.event["post"]
                 if P["nodes_written"] or P["muts_written"] or method == "maximization":
@@ -125,6 +125,7 @@ def run(ctx):
     ctx.tlc("Metadata", cfg, workers=4, required_actions=("MdChoose", "MdStart", "MdTry1", "MdExcept", "MdTry2"))
     corpus = sc.frame_corpus(ctx, k=1 if q else 3, big=not q)
     events, meta = drive(ctx, corpus)
+    sc.require_results(ctx, events)
     sc.judge(ctx, PID, CHECKS, events, meta, "date")
     if not q:
         evs, rc, tail = sc.run_suite(ctx, ["tests/test_inference.py", "tests/test_noncontemporary.py",
